@@ -13,6 +13,7 @@ let () =
     | "values" -> H_values.values_case
     | "params" -> H_params.params_case
     | "doubles" -> H_doubles.doubles_case
+    | "tool" -> H_tool.tool_case
     | _ -> failwith ("unknown model " ^ sub) in
   (try
     while true do
